@@ -367,6 +367,9 @@ impl<W: Write> Session<W> {
                 obs::str_cps(&mut self.buf, text);
                 self.buf.push_str(",\"out\":");
                 self.strings(&out);
+                // the state of the terminal inside the collector (hook): the trace specification continues from it
+                self.buf.push_str(",\"st\":");
+                let _ = obs::vt_state(&mut self.buf, self.collectors[k - 1].as_ref().unwrap().verif_vt());
                 self.buf.push('}');
                 self.emit();
                 true
